@@ -950,6 +950,109 @@ class Srv:
                     res.ok("R9.http-err", inst, where(b, bi), "an error of the state machine is never converted into a success response")
         res.need("R9.http-err", "route_handle_calls", n, 4, "calls of PolicyStateHandle methods in the HTTP routes")
 
+
+    def cancel_arm_rules(self):
+        """R9.cancel handle_cmd|Cancel-only: between the Cancel arm of handle_cmd and the call of cancel()
+        nothing touches the actor (e.g. closing the per-peer queues makes the running MPC fail with a
+        channel error that races with the cancel notice)."""
+        res = self.res
+        h = self.hs.get("handle_cmd")
+        if not h or not h.user:
+            return
+        k, b = h.user
+        ce = h.evs(K("handler", "cancel"))
+        if not ce:
+            return
+        cb = ce[0].block
+        # blocks from which the cancel call is reached and that are not shared with another handler call
+        others = {e.block for e in h.evs(K("handler")) if e.block != cb}
+        pre = {x for x in b.reachable_from(0) if cb in b.reachable_from(x) and x != cb and not any(o in b.reachable_from(x) for o in others)}
+        touched = None
+        for x in sorted(pre):
+            t = b.blocks[x]["t"]
+            if t["k"] == "call" and t["args"] and t["args"][0]["k"] != "const" and t["args"][0]["p"]["ty"].startswith("&mut ") and x in b.live_blocks():
+                nm = callee_names(t)
+                fo = field_origin(b, t["args"][0])
+                if fo and fo[0].startswith("PolicyState") and nm and not nm[-1].endswith("::cancel"):
+                    touched = (x, fo[1], nm[-1].rsplit("::", 1)[-1])
+            for st in b.blocks[x]["s"]:
+                if st["k"] == "assign" and st["p"]["pr"]:
+                    fl_ = [e for e in st["p"]["pr"] if isinstance(e, dict) and e.get("n") and "PolicyState" in (e.get("a") or "")]
+                    if fl_:
+                        touched = (x, fl_[-1]["n"], "assignment")
+        if touched:
+            res.bad("R9.cancel", "handle_cmd|Cancel-only", "the Cancel arm changes `self.%s` (%s) before cancel() runs: the running computation is disturbed while it is being cancelled (e.g. closing the message queues makes the MPC task report a channel error instead of, or in a race with, the cancel notice)" % (touched[1], touched[2]), where(b, touched[0]))
+        else:
+            res.ok("R9.cancel", "handle_cmd|Cancel-only", where(b, cb), "the Cancel arm calls cancel() without touching the actor first")
+
+    def cancel_all_rules(self):
+        """R9.cancel-all (HTTP layer): cancel_all waits for every spawned cancel request: the loop over
+        JoinSet::join_next is left only when the set is exhausted - an early return (`?`) drops the
+        JoinSet, which aborts the cancel requests still in flight."""
+        res = self.res
+        prog = self.prog
+        found = False
+        for k, b in prog.bodies.items():
+            if b.krate != "polytune_http_server" or "cancel_all" not in b.owner:
+                continue
+            jn = [bi for bi, t in b.calls() if any(x.endswith("JoinSet::<T>::join_next") or x.endswith("::join_next") for x in callee_names(t)) and bi in b.live_blocks()]
+            if not jn:
+                continue
+            found = True
+            # natural loop containing the join_next call
+            loops = []
+            succ = b.succ()
+            for x in b.live_blocks():
+                for y in succ[x]:
+                    if b.dominates(y, x):
+                        body = {y}
+                        stack = [x]
+                        while stack:
+                            z = stack.pop()
+                            if z in body:
+                                continue
+                            body.add(z)
+                            stack.extend(b.pred()[z])
+                        loops.append((y, body))
+            lp = [body for hd, body in loops if jn[0] in body]
+            if not lp:
+                res.bad("R9.cancel-all", "cancel_all|loop", "join_next is not awaited in a loop: only the first cancel request is waited for", where(b, jn[0]))
+                continue
+            body = max(lp, key=len)
+            exits = []
+            for x in body:
+                if b.blocks[x].get("cleanup"):
+                    continue
+                for y in succ[x]:
+                    if y not in body and not b.blocks[y].get("cleanup") and b.blocks[y]["t"]["k"] not in ("unreachable",):
+                        exits.append((x, y))
+            # the legitimate exit: the None arm of the join_next result; others are early returns; yields are
+            # suspension points of the await, not exits
+            early = []
+            for (x, y) in exits:
+                t = b.blocks[x]["t"]
+                if t["k"] == "yield":
+                    continue
+                is_none_arm = False
+                if t["k"] == "switch":
+                    for st in b.blocks[x]["s"]:
+                        if st["k"] == "assign" and st["r"]["k"] == "discr" and st["p"]["l"] == (t["o"]["p"]["l"] if t["o"]["k"] != "const" else -1):
+                            ty = b.locals[st["r"]["p"]["l"]]["ty"]
+                            if ty.startswith("core::option::Option<core::result::Result<") and "JoinError" in ty:
+                                tm = {str(v): tb for v, tb in t["ts"]}
+                                none_t = tm.get("0", t["else"])
+                                if y == none_t:
+                                    is_none_arm = True
+                if not is_none_arm and "drop" != t["k"]:
+                    early.append((x, y))
+            early = [e for e in early if b.blocks[e[0]]["t"]["k"] in ("switch", "goto", "call")]
+            if early:
+                res.bad("R9.cancel-all", "cancel_all|loop", "the loop over JoinSet::join_next can be left before the set is exhausted (an early return / `?`): dropping the JoinSet aborts the cancel requests that are still in flight, so cancel() returns while computations are still being cancelled and their destinations are notified afterwards or never", where(b, early[0][0]))
+            else:
+                res.ok("R9.cancel-all", "cancel_all|loop", where(b, jn[0]), "the join_next loop is left only when every cancel request has finished")
+        if not found:
+            res.bad("R9.cancel-all", "cancel_all|loop", "cannot locate the JoinSet::join_next loop of PolytuneState::cancel_all")
+
     PANIC_OK = {
         ("schedule", "expect"): "acquire_owned on a semaphore checked not-closed in new(); send on own cmd queue whose receiver the actor holds",
         ("check_consts", "expect"): "channel_receivers initialised by init_channel in schedule before any path to check_consts; send on own cmd queue",
@@ -1158,6 +1261,8 @@ class Srv:
                     res.ok("R9.cancel", "task|select", fl(b.span), "the MPC future is owned by the task body that also waits for cancellation")
                 else:
                     res.bad("R9.cancel", "task|select", "the MPC future is not raced against the cancel signal in one task", fl(b.span))
+        self.cancel_arm_rules()
+        self.cancel_all_rules()
         self.notify_rules()
 
     def notify_rules(self):
